@@ -413,6 +413,8 @@ async fn payment_lifecycle<B, N, P, S>(
     P: PaymentProvider,
     S: Datastore,
 {
+    #[cfg(breez_trampoline_verif)]
+    use crate::verif::seam::std;
     let state = match params.store.fetch_payment_info(&trampoline).await {
         Ok(state) => state,
         Err(e) => {
